@@ -424,6 +424,38 @@ fn other_cases(tier: Tier, ellipsoids: &[String]) -> Vec<Case> {
         c.time_kept = !(def.starts_with("axisswap") || def.starts_with("adapt"));
         cases.push(c);
     }
+    // adapt: every signed axis order (24 orders x 16 sign patterns), as from= and as to=: exact both ways
+    {
+        let letters = [['e', 'w'], ['n', 's'], ['u', 'd'], ['f', 'p']];
+        let mut perms: Vec<Vec<usize>> = vec![vec![]];
+        for _ in 0..4 {
+            perms = perms.into_iter().flat_map(|p| (0..4).filter(|i| !p.contains(i)).map(|i| { let mut q = p.clone(); q.push(i); q }).collect::<Vec<_>>()).collect();
+        }
+        for perm in &perms {
+            for signs in 0..16usize {
+                let d: String = perm.iter().map(|&ax| letters[ax][(signs >> ax) & 1]).collect();
+                for def in [format!("adapt from={d}"), format!("adapt to={d}")] {
+                    let class = if signs == 0 || signs == 15 { "uniform signs" } else { "mixed signs" };
+                    let mut c = simple(&format!("adapt [exact, every signed order, {class}]"), &def, generic[..3].to_vec(), Metric::Exact, 0.);
+                    c.time_kept = false;
+                    cases.push(c);
+                }
+            }
+        }
+        // ... and with angular units on either side (relative 1e-5 is far looser than needed: what is judged is
+        // that the right element gets the right factor back)
+        for perm in &perms {
+            for unit in ["_deg", "_gon"] {
+                let d: String = perm.iter().map(|&ax| letters[ax][0]).collect();
+                let d2: String = perm.iter().rev().map(|&ax| letters[ax][(ax + 1) & 1]).collect();
+                for def in [format!("adapt from={d}{unit}"), format!("adapt from={d}{unit} to={d2}"), format!("adapt from={d2} to={d}{unit}")] {
+                    let mut c = simple("adapt [units x every order]", &def, generic[..3].to_vec(), Metric::Relative, 1e-5);
+                    c.time_kept = false;
+                    cases.push(c);
+                }
+            }
+        }
+    }
     cases.push(simple("helmert [dyadic translation, exact]", "helmert x=3 y=-5.5 z=1024", vec![[1.5, -2.25, 3.75, 2020.5], [-1024.5, 77.125, -8., 1.], [0., 0., 0., f64::NAN]], Metric::Exact, 0.));
     for def in ["adapt from=neuf_deg", "adapt to=enuf_gon", "adapt from=sedf_deg to=nwuf_gon", "unitconvert xy_in=deg xy_out=rad", "unitconvert xy_in=us-ft z_in=ft z_out=km", "unitconvert xy_in=km xy_out=mm z_in=in"] {
         cases.push(simple(&format!("{} [units]", def.split(' ').next().unwrap()), def, generic[..3].to_vec(), Metric::Relative, 1e-5));
